@@ -714,7 +714,7 @@ func (e *Engine) atReturn(st *State, fr *Frame, results []Value) {
 // at the locations named in the modifies clause (objects allocated by the function are free).
 func (e *Engine) frameCheck(st *State, fr *Frame, vars map[string]specVal) {
 	ct := fr.contract
-	if ct == nil || ct.ModAll || ct.NoFrame || ct.Inline {
+	if ct == nil || ct.ModAll || ct.NoFrame || ct.Inline || ct.AssumeFrame {
 		return
 	}
 	if len(ct.Ensures) == 0 && len(ct.Modifies) == 0 && !ct.Pure {
